@@ -51,13 +51,15 @@ let () =
         Printf.printf "%s %s\n" id (show_ids (math_lowest l))
     | id :: "pad" :: n :: s :: _ ->
         let pad = if s = "-" then gen_padding_default else u16_of_token s in
-        Printf.printf "%s %s\n" id (token_of_u16 (padding (nat_of_int (int_of_string n)) pad))
+        Printf.printf "%s %s\n" id (token_of_u16 (padding_tree (nat_of_int (int_of_string n)) pad))
     | id :: "align" :: t :: p :: a :: _ ->
         let m = if a = "-" then ALeft else align_mode_of (u16_of_token a) in
-        Printf.printf "%s %s\n" id (token_of_u16 (align (u16_of_token t) (u16_of_token p) m))
+        Printf.printf "%s %s\n" id (token_of_u16 (align_tree (u16_of_token t) (u16_of_token p) m))
     | id :: "idtok" :: s :: _ ->
         Printf.printf "%s %s\n" id (String.concat ";" (List.map token_of_u16 (id_tokens (u16_of_token s))))
     | id :: "id" :: tbl :: s :: _ ->
         let ids = List.map (fun (k, v) -> (u16_of_token k, n_of_int (int_of_string v))) (pairs_of tbl) in
         Printf.printf "%s %s\n" id (show_ids (id_nodes ids (u16_of_token s)))
+    | id :: "flag" :: _ ->
+        Printf.printf "%s %s\n" id (if gen_exslt_padding_align_count_characters then "characters" else "units")
     | _ -> ())
